@@ -32,6 +32,18 @@ theorem memOf_append_right (a b : Bytes) (i : Nat) (h : a.length ≤ i) :
 
 theorem g16_memOf (b : Bytes) (i : Nat) : g16 (memOf b) i = be16 b i := rfl
 
+theorem g16_memOf_append_left (a b : Bytes) (i : Nat) (h : i + 1 < a.length) :
+    g16 (memOf (a ++ b)) i = g16 (memOf a) i := by
+  unfold Dec.g16
+  rw [memOf_append_left a b i (by omega), memOf_append_left a b (i + 1) h]
+
+theorem g16_memOf_append_right (a b : Bytes) (i : Nat) (h : a.length ≤ i) :
+    g16 (memOf (a ++ b)) i = g16 (memOf b) (i - a.length) := by
+  unfold Dec.g16
+  rw [memOf_append_right a b i h, memOf_append_right a b (i + 1) (by omega)]
+  have e : i + 1 - a.length = i - a.length + 1 := by omega
+  rw [e]
+
 /-- the memory `g` holds the bytes `b` at offset `o` -/
 def Holds (g : Mem) (o : Nat) (b : Bytes) : Prop := ∀ i, i < b.length → g (o + i) = bAt b i
 
